@@ -142,8 +142,9 @@ def _schedule(cfg, nt):
 PROBE = np.array([-1.0, 0.0, 1e-3, 0.2, 0.7, 1.4, 3.9, 8.0, 50.0])
 
 
-def _apply(obj, op, cfg):
-    """Execute one operation; return ('ok', value) or ('raise', type name)."""
+def _apply(obj, op, cfg, held=None):
+    """Execute one operation; return ('ok', value) or ('raise', type name). Interpolators handed out
+    are appended to `held` together with what they answered when they were new."""
     c = CONFIGS[cfg]
     try:
         with np.errstate(all="ignore"), warnings.catch_warnings():
@@ -182,7 +183,10 @@ def _apply(obj, op, cfg):
                 return ("ok", np.array(obj.recovery_factor(density=True), copy=True))
             if op == "interp":
                 f = obj.recovery_factor_interpolator()
-                return ("ok", np.array(f(PROBE), dtype=float))
+                out = np.array(f(PROBE), dtype=float)
+                if held is not None:
+                    held.append((f, out.copy()))
+                return ("ok", out)
     except Exception as e:  # noqa: BLE001
         return ("raise", type(e).__name__)
     raise KeyError(op)
@@ -211,10 +215,24 @@ def run_case(ck, desc):
     cls, cfg, seq = desc["cls"], desc["cfg"], desc["seq"]
     obj = _fresh(cls, cfg)
     log = []
+    held = []
     for op in seq:
-        res = _apply(obj, op, cfg)
+        res = _apply(obj, op, cfg, held)
         log.append((op, res, _state(obj)))
         ck.count("calls_logged")
+    # an interpolator that was handed out is a value: asked again after the rest of the history it
+    # answers what it answered when it was new ("repeating a call ... returns the same result")
+    for j, (f, first) in enumerate(held):
+        try:
+            with np.errstate(all="ignore"):
+                again = np.array(f(PROBE), dtype=float)
+            same = _same(first, again)
+        except Exception as e:  # noqa: BLE001
+            again, same = type(e).__name__, False
+        ck.count("held_interpolators_asked_again")
+        if not same:
+            ck.violation("repeat-call-same-result", {"op": "held interpolator evaluated again after the history", "which": j, "history": seq, "now": again if isinstance(again, str) else "other values"}, desc)
+            break
     sims = [i for i, op in enumerate(seq) if op.startswith("sim")]
     nontrivial = bool(sims and sims[0] < len(seq) - 1)
     stale = None
